@@ -39,6 +39,10 @@ def alphabets(seed):
         "S3": (0, 1, 3),
         "S2": (0, 4),
         "S3s": tuple(a + b * x for x in (0, 1, 3)),
+        # values that are NOT exactly representable in binary: the variance of a constant stretch comes out of the prefix
+        # sums as +-1e-18 instead of an exact 0 (still far below the 1e-16 floor, which must be applied to it); univariate
+        # costs only -- for the covariance cost rounding alone decides whether such a slice counts as singular
+        "ND": (0.1, 0.07, -0.05),
     }
 
 
@@ -50,6 +54,8 @@ def spaces(tier, seed):
         out.append(("S4", n, 1))
     for n in range(1, (6 if q else 8) + 1):
         out.append(("S3s", n, 1))
+    for n in range(1, (6 if q else 8) + 1):
+        out.append(("ND", n, 1))
     for n in range(1, (3 if q else 4) + 1):
         out.append(("S3", n, 2))
     for n in range(1, (4 if q else 5) + 1):
@@ -71,6 +77,8 @@ def check_matrix(acc, X, alph_name):
     rows = costref.frac_rows(X)
     nontriv = any(len({r[j] for r in X}) > 1 for j in range(p))
     for V in variants.variants(p):
+        if alph_name == "ND" and V.family == "Cov":
+            continue
         acc.ev()
         case = {"x": [list(r) for r in X], "variant": V.name}
         key = {"variant": V.name}
